@@ -284,6 +284,8 @@ def bounded_chunk(arg):
                 m = U.float2mpf(ctx, x)
                 if fin and mpf_value(m) != v:
                     fail("float2mpf", bits, got=str(mpf_value(m)), want=str(v))
+                if fin and U.float2fraction(m) != v:
+                    fail("float2fraction", bits, got=str(U.float2fraction(m)), want=str(v), via="mpf branch")
                 if isnan and not ctx.isnan(m) or isinf and not (ctx.isinf(m) and (m < 0) == bool(x < 0)):
                     fail("float2mpf", bits, got=repr(m), want=repr(x))
                 r = U.mpf2float(t, m)
@@ -358,6 +360,20 @@ def cross_chunk(arg):
                 e = U.mpf2expansion(t, m)
                 if mpf_value(U.expansion2mpf(ctx, e)) != v:
                     fail("mpf2expansion[cross]", x, got=[repr(u) for u in e], want=[repr(a), repr(b)])
+                full = list(e)
+                for k in (1, 2, 3):
+                    ek = U.mpf2expansion(t, m, length=k, functional=True)
+                    if len(ek) != k or [float(u) for u in ek] != ([float(u) for u in full] + [0.0] * k)[:k]:
+                        fail("mpf2expansion[cross]", x, got=[repr(u) for u in ek], want=[repr(u) for u in full], length=k)
+                    fk = U.fraction2expansion(t, v, length=k, functional=True)
+                    if len(fk) != k or (len(full) <= k and sum((Fraction(float(u)) for u in fk), Fraction(0)) != v):
+                        fail("fraction2expansion[cross]", x, got=[repr(u) for u in fk], want=[repr(u) for u in full], length=k)
+                    mk = U.mpf2multiword(t, m, max_length=k)
+                    if len(mk) > k or (mk and m._mpf_[3] <= sb * len(mk) and mpf_value(U.multiword2mpf(ctx, mk)) != v):
+                        fail("mpf2multiword[cross]", x, got=[repr(u) for u in mk], want=[repr(a), repr(b)], max_length=k)
+                ne = U.number2expansion(t, v)
+                if sum((Fraction(float(u)) for u in ne), Fraction(0)) != v:
+                    fail("fraction2expansion[cross]", x, got=[repr(u) for u in ne], want=[repr(a), repr(b)], via="number2expansion(Fraction)")
                 mw = U.mpf2multiword(t, m)
                 # documented contract of the fixed-width multiword: exact when x.bc <= p * len(result) (otherwise truncated)
                 if not mw or (m._mpf_[3] <= sb * len(mw) and mpf_value(U.multiword2mpf(ctx, mw)) != v):
@@ -399,7 +415,7 @@ def part_b(rep, tier):
         for name in CHECKS_B:
             names.add((t.__name__, name))
     for key in ("float16<-float32", "float16<-float64", "float32<-float64"):
-        for name in ("float2expansion[numpy]", "float2expansion[python-float]", "mpf2expansion[cross]", "mpf2multiword[cross]"):
+        for name in ("float2expansion[numpy]", "float2expansion[python-float]", "mpf2expansion[cross]", "mpf2multiword[cross]", "fraction2expansion[cross]"):
             names.add((key, name))
     for tn, name in sorted(names):
         lst = agg.get((tn, name), [])
